@@ -36,6 +36,14 @@ class Expansion:
                 if o.impl is not None and ' for ' not in o.impl and self.impl_self(o.impl) in R.BNUM_TYPES:
                     self.const_names.add(o.name)
 
+    def array_fields(self, selfty):
+        """R18: {field: (elem type, LEN)} for the array-of-integer fields of the struct named selfty, as declared in
+        the expansion (exactly one top-level struct of that name, else nothing)"""
+        l = [o for k, v in self.structs.items() for o in v if o.name == selfty and not o.outer and o.kind == 'struct']
+        if len(l) != 1:
+            return {}
+        return R.array_fields_of_struct(l[0].tokens)
+
     @staticmethod
     def norm_header(h):
         """impl header tokens joined by ' ' -> canonical string without the leading generics."""
@@ -375,6 +383,12 @@ class Generator:
             both(R.r12_bool_or_assign, set(e.opts['r12'].split(',')), log)
         if 'r14' in e.opts:
             both(R.r14_digit_from_bytes, log)
+        if 'r18' in e.opts:
+            if e.kind != 'fn' or impl is None:
+                raise R.Unsupported('R18 applies to methods only')
+            body = R.r18_array_for(sig, body, self.x.array_fields(self.x.impl_self(impl)), log)
+        if 'r19' in e.opts:
+            body = R.r19_while_let_ref_lit(body, log)
         if 'rename' in e.opts:
             mp = dict(kv.split(':') for kv in e.opts['rename'].split(','))
             both(R.rename_idents, mp, log)
@@ -1052,4 +1066,9 @@ class Generator:
         emit_node(tree, 0)
         emit('} // verus!')
         emit('fn main() {}')
+        if any(':: __export :: must_use' in l for l in lines):
+            # `format!(..)` expands to `::alloc::__export::must_use({ ::alloc::fmt::format(format_args!(..)) })`: needs the
+            # `hint_must_use` gate; added only to files that contain such a body (all other files stay byte-identical)
+            k = lines.index('#![feature(liballoc_internals)]')
+            lines[k] = '#![feature(liballoc_internals, hint_must_use)]'
         return '\n'.join(lines) + '\n', linemap
